@@ -65,9 +65,31 @@ type c01Case struct {
 	Path int    `json:"path,omitempty"` // index into c01Paths
 }
 
-var c01Paths = []string{"WriteTo", "WriteToFile(existing, longer file)", "NewReader", "Write", "WriteToTempFile", "second WriteTo of the same Msg"}
+var c01Paths = []string{"WriteTo", "WriteToFile(existing, longer file)", "NewReader", "Write", "WriteToTempFile", "second WriteTo of the same Msg", "WriteTo after a WriteTo into a sink that failed (at every eighth of the rendering)"}
 
 func c01Exec(r *vf.Run, spec mb.Msg, path int) []finding {
+	if path == 6 {
+		// history: an earlier rendering of the same Msg failed in the sink, at 1/8 .. 7/8 of the full length
+		var whole bytes.Buffer
+		if m0, err := mb.Build(spec, nil); err == nil {
+			_, _ = vf.Guard(func() { _, _ = m0.WriteTo(&whole) })
+		}
+		var out []finding
+		seen := map[string]bool{}
+		for j := 1; j <= 7; j++ {
+			for _, f := range c01ExecAt(r, spec, path, whole.Len()*j/8) {
+				if !seen[f.key] {
+					seen[f.key] = true
+					out = append(out, f)
+				}
+			}
+		}
+		return out
+	}
+	return c01ExecAt(r, spec, path, 0)
+}
+
+func c01ExecAt(r *vf.Run, spec mb.Msg, path, failAt int) []finding {
 	m, err := mb.Build(spec, nil)
 	if err != nil {
 		r.HarnessError("C01 build: %v (%s)", err, spec.Describe())
@@ -116,6 +138,9 @@ func c01Exec(r *vf.Run, spec mb.Msg, path int) []finding {
 			if _, werr = m.WriteTo(io.Discard); werr == nil {
 				_, werr = m.WriteTo(&buf)
 			}
+		case 6:
+			_, _ = m.WriteTo(&faultSink{at: failAt})
+			_, werr = m.WriteTo(&buf)
 		default:
 			_, werr = m.WriteTo(&buf)
 		}
@@ -399,7 +424,7 @@ func init() {
 	vf.Register(&vf.Check{
 		ID: "C01", Title: "rendered MIME carries exactly the content the caller supplied",
 		Run: func(r *vf.Run) {
-			r.SetRule("builder programs in canonical order: 0..3 body parts × 0..2 embeds × 0..2 attachments × message encoding {QP, base64, 8bit} × file encoding {default base64, 8bit, QP via File.Enc} × per-part encodings/descriptions/content types/fixed boundary, contents rotated through a 25-entry text alphabet and an 18-entry binary alphabet (wrap points 57/58/75/76/77, dots, '=', boundary-like lines, bare CR/LF, all 256 byte values, 3000-byte binary); plus every single byte value in every encoding; plus files supplied through AttachReader/EmbedReader (memory recycled by the caller afterwards; one scratch buffer refilled per file) and Attach/EmbedReadSeeker; bodies and files produced from text/html templates; part contents replaced through Part.SetContent; messages rendered while still incomplete and completed afterwards; each program is rendered through WriteTo, WriteToFile onto an existing longer file, NewReader, Write, WriteToTempFile and a second WriteTo of the same Msg; each rendering is re-read by the harness' own MIME reader and compared leaf by leaf; distinct by program")
+			r.SetRule("builder programs in canonical order: 0..3 body parts × 0..2 embeds × 0..2 attachments × message encoding {QP, base64, 8bit} × file encoding {default base64, 8bit, QP via File.Enc} × per-part encodings/descriptions/content types/fixed boundary, contents rotated through a 25-entry text alphabet and an 18-entry binary alphabet (wrap points 57/58/75/76/77, dots, '=', boundary-like lines, bare CR/LF, all 256 byte values, 3000-byte binary); plus every single byte value in every encoding; plus files supplied through AttachReader/EmbedReader (memory recycled by the caller afterwards; one scratch buffer refilled per file) and Attach/EmbedReadSeeker; bodies and files produced from text/html templates; part contents replaced through Part.SetContent; messages rendered while still incomplete and completed afterwards; each program is rendered through WriteTo, WriteToFile onto an existing longer file, NewReader, Write, WriteToTempFile, a second WriteTo of the same Msg, and a WriteTo that follows one into a sink failing at 1/8..7/8 of the rendering; each rendering is re-read by the harness' own MIME reader and compared leaf by leaf; distinct by program")
 			r.Assume("file media types without WithFileContentType are those of mime.TypeByExtension", "charset of text parts is the default UTF-8", "NUL bytes are not text")
 			specs := c01Specs(r.Thorough)
 			r.Extra("programs", len(specs))
